@@ -12,6 +12,7 @@ mod c06;
 mod c07;
 mod c11;
 mod c12;
+mod c13;
 mod c20;
 mod gen;
 mod dicts;
@@ -43,6 +44,8 @@ fn main() {
         "c07-replay" => c07::replay(rest),
         "c07-record" => c07::record(rest),
         "c12-replay" => c12::replay(rest),
+        "c13-replay" => c13::replay(rest),
+        "c13-record" => c13::record(rest),
         "c12-record" => c12::record(rest),
         other => {
             eprintln!("unknown subcommand {}", other);
